@@ -11,7 +11,7 @@ import zoneinfo
 import uberjob
 from hypothesis import given, strategies as st
 from uberjob._value_store import ValueStore
-from uberjob.stores import JsonFileStore
+from uberjob.stores import JsonFileStore, PathSource
 
 from vlib import refmodel, runner
 from vlib.util import uncanon
@@ -52,7 +52,10 @@ TRANSITIONS = [
     ("Australia/Lord_Howe", 1633188600),  # 2021-10-02 15:30 UTC spring forward
     ("America/St_Johns", 1636259400),  # 2021-11-07 04:30 UTC fall back
 ]
-REPRS = ["naive", "utc", "fixed", "zone", "file"]  # "file": a bundled file store; its modified time is the file's mtime
+# "file": a bundled file store; its modified time is the file's mtime.  "path": the source is a bundled PathSource
+# (the other stores of such a row are bundled file stores)
+REPRS = ["naive", "utc", "fixed", "zone", "file", "path"]
+FILE_KINDS = ("file", "path")
 NAMES = ["src", "a", "b", "c", "fresh"]
 
 
@@ -101,14 +104,20 @@ class StampedFileStore(JsonFileStore):
 
 
 def make_store(name, box):
-    if box["reprs"][name][0] == "file":
+    if box["reprs"][name][0] == "path" and name == "src":
+        path = os.path.join(box["dir"], "src.dat")
+        with open(path, "w") as f:
+            f.write("src")
+        os.utime(path, (box["instants"]["src"], box["instants"]["src"]))
+        return PathSource(path)
+    if box["reprs"][name][0] in FILE_KINDS:
         return StampedFileStore(os.path.join(box["dir"], name + ".json"), name, box)
     return TimedStore(name, box)
 
 
 def represent(t, r):
     kind = r[0]
-    if kind in ("naive", "file"):
+    if kind in ("naive",) + FILE_KINDS:
         return dt.datetime.fromtimestamp(t)
     if kind == "utc":
         return dt.datetime.fromtimestamp(t, tz=dt.timezone.utc)
@@ -133,7 +142,7 @@ def cases(draw):
             inst[n] += 1
         seen.add(inst[n])
     has_fresh = draw(st.sampled_from([True, True, False]))
-    rep = st.one_of(st.just(["naive"]), st.just(["utc"]), st.just(["file"]), st.just(["file"]),
+    rep = st.one_of(st.just(["naive"]), st.just(["utc"]), st.just(["file"]), st.just(["file"]), st.just(["path"]),
                     st.tuples(st.just("fixed"), st.sampled_from([-720, -300, -210, 0, 60, 330, 345, 630, 840])).map(list),
                     st.tuples(st.just("zone"), st.sampled_from(ZONES)).map(list))
     assigns = [{n: draw(rep) for n in NAMES} for _ in range(6)]
@@ -188,7 +197,7 @@ def in_repeated_hour(zone, t):
 def check_case(ctx, case, record=True, only=None):
     inst, has_fresh = case["inst"], case["has_fresh"]
     exp = expected(inst, has_fresh)
-    uniform = [{n: [r] if r in ("naive", "utc", "file") else (["fixed", 330] if r == "fixed" else ["zone", case["zone_hint"]])
+    uniform = [{n: [r] if r in ("naive", "utc", "file", "path") else (["fixed", 330] if r == "fixed" else ["zone", case["zone_hint"]])
                 for n in NAMES} for r in REPRS]
     assigns = uniform + [dict(a) for a in case["assigns"]]
     zones = ZONES if case["zone_hint"] in ZONES else ZONES + [case["zone_hint"]]
@@ -206,12 +215,13 @@ def check_case(ctx, case, record=True, only=None):
             vals = sorted(inst[n] for n in used)
             close = any(0 < y - x <= max(off, 1) for x, y in zip(vals, vals[1:]))
             rep_hour = any(in_repeated_hour(z, inst[n]) for n in used)
-            naive_used = any(reprs[n][0] in ("naive", "file") for n in used)
+            naive_used = any(reprs[n][0] in ("naive",) + FILE_KINDS for n in used)
             nt = ((len(kinds) > 1 or off != 0) and close) or (rep_hour and naive_used)
             key_case = {"case": case, "tz": z, "assign": ai}
             if record:
                 ctx.case(key_case, nt, [f"tz:{z}", "mixed_repr" if len(kinds) > 1 else "uniform:" + next(iter(kinds))[0]]
-                         + (["file_store"] if any(reprs[n][0] == "file" for n in used) else [])
+                         + (["file_store"] if any(reprs[n][0] in FILE_KINDS for n in used) else [])
+                         + (["path_source"] if reprs["src"][0] == "path" else [])
                          + (["repeated_hour"] if rep_hour and naive_used else []) + (["fresh"] if has_fresh else []))
             try:
                 got = run_cell(inst, has_fresh, reprs, directory)
